@@ -1,14 +1,19 @@
 (* C15 — runs are repeatable, isolated from earlier runs, and throttling cuts cleanly.
    [vm_reset], [run_guard*] are regenerated from hera/vm.py; [run], [iter], [loop_step*] are
-   Model/Run.v.  The comparison "throttled state = unthrottled state at that point" is proved
-   between throttled runs of different limits (the unthrottled loop differs only in not counting);
-   see DESIGN.md for what is left to the correspondence (PARTIAL). *)
+   Model/Run.v.  The comparison "throttled state = unthrottled state at that point" is a theorem:
+   nothing the interpreter executes reads or writes the instruction counter (Gen/Indep.v, regenerated
+   with the code model: one lemma per generated definition), so the throttled loop follows the
+   unthrottled one step for step, equal up to op_count.  Process-level isolation (module globals) is
+   outside the model and decided by the oracle (PARTIAL only in that respect). *)
 From Coq Require Import ZArith List String.
 From Hera.Lib Require Import Py Machine.
 From Hera.Gen Require Import Vm Ops.
 From Hera.Spec Require Import Wf.
 From Hera.Model Require Import Run.
-From Hera.Proofs Require Import C02_Run C15_Repeat C15_Throttle.
+From Hera.Lib Require Import Indep.
+From Hera.Gen Require Import Indep.
+From Hera.Spec Require Import ISA.
+From Hera.Proofs Require Import C02_Run C15_Repeat C15_Throttle C15_Count C15_Unthrottled.
 Import ListNotations.
 Open Scope Z_scope.
 
@@ -43,3 +48,36 @@ Theorem C15_throttle_prefix_partial : forall code n n', code_ok code -> n <= n' 
   steps (loop_step_throttled n code) k s = steps (loop_step_throttled n' code) k s.
 Proof. exact throttle_prefix. Qed.
 Print Assumptions C15_throttle_prefix_partial.
+
+(* ---- throttled vs unthrottled ------------------------------------------------------------------------------ *)
+(* execute() of every operation commutes with setting the instruction counter (result, state and
+   exceptions): the generated code never reads or writes op_count *)
+Theorem C15_exec_ignores_counter : forall o args c s,
+  okrel c (exec o args s) (exec o args (upd_op_count c s)).
+Proof. exact exec_indep. Qed.
+Print Assumptions C15_exec_ignores_counter.
+
+(* the same at the level of the specification *)
+Theorem C15_step_ignores_counter : forall mc mv i c s,
+  step_with mc mv i (upd_op_count c s) = upd_op_count c (step_with mc mv i s).
+Proof. exact step_count_indep. Qed.
+Print Assumptions C15_step_ignores_counter.
+
+(* if the unthrottled loop ends after k iterations in s', the throttled loop with any limit of at
+   least (counter + k) ends in s' with k more on the counter — for every program and state *)
+Theorem C15_unthrottled_is_throttled : forall code n fuel s s' c,
+  iter (loop_step code) fuel s = Ok s' ->
+  exists k, (k <= fuel)%nat /\
+    (c + Z.of_nat k <= n ->
+     iter (loop_step_throttled n code) fuel (upd_op_count c s) = Ok (upd_op_count (c + Z.of_nat k) s')).
+Proof. exact unthrottled_is_throttled. Qed.
+Print Assumptions C15_unthrottled_is_throttled.
+
+(* step for step: after k iterations within the limit the throttled state is the unthrottled
+   state, up to the counter *)
+Theorem C15_throttled_follows_unthrottled : forall code n k s s' c,
+  steps (loop_step code) k s = Ok s' -> c + Z.of_nat k <= n ->
+  exists c', c <= c' <= c + Z.of_nat k /\
+    steps (loop_step_throttled n code) k (upd_op_count c s) = Ok (upd_op_count c' s').
+Proof. exact throttled_follows_unthrottled. Qed.
+Print Assumptions C15_throttled_follows_unthrottled.
